@@ -138,7 +138,7 @@ func runC08(c *Ctx) {
 					h := loopHeaderOf(b)
 					bad := h == nil
 					if h != nil {
-						_, _, found := reachAvoiding([]cfgPos{{s, 0}}, func(x ssa.Instruction) bool { return x == h.Instrs[0] }, isReturn, nil)
+						_, _, found := reachAvoiding([]cfgPos{{B: s, I: 0}}, func(x ssa.Instruction) bool { return x == h.Instrs[0] }, isReturn, nil)
 						bad = found
 					}
 					c.Check(!bad, "O2", "MPT", funcKey(combinator)+": first failing check decides", b.Instrs[len(b.Instrs)-1].Pos(), "a non-schedulable result is returned", "a failing capacity check does not stop the gate (later checks can overwrite it)")
